@@ -41,8 +41,7 @@ def h_roundtrip(nr, nc, idk, mdk, zeros):
     m = b.csr((_arr(data), indices, indptr), shape=(nr, nc))
     omd = MD_MENUS[mdk](oids, 'observation')
     smd = MD_MENUS['text' if mdk == 'taxonomy' else mdk](sids, 'sample') if mdk not in ('taxonomy-with-null',) else None
-    tid = pick([None, 'my table id'], 'table-id')
-    typ = pick([None, 'OTU table', 'Metabolite table'], 'type')
+    tid, typ = pick([(None, None), ('my table id', 'OTU table'), (None, 'Metabolite table')], 'table-id/type')
     gmd = pick([None, {'tree': ('newick', '((a,b),c);')}, {'tree': ('newick', '((a,b),c);'), 'graph': ('json', '{"x": 1}')},
                 {'tree': ('newick', '((\u00e9,\u03b2),\u4e2d);')}], 'group-md')
     kw = {}
@@ -55,20 +54,36 @@ def h_roundtrip(nr, nc, idk, mdk, zeros):
         t._data = t._data.tocsc()
     a = ATM(oids, sids, dense, omd, smd, typ)
     compress = flag('compress')
-    via = pick(['from_hdf5', 'parse_biom_table'], 'reader')
+    # writer / reader pairs: the methods, and the package-level save_table / load_table (open handle, or a path with
+    # biom_open stubbed to hand over the store)
+    wr, via = pick([('to_hdf5', 'from_hdf5'), ('to_hdf5', 'parse_biom_table'), ('save_table', 'load_table:handle'),
+                    ('save_table', 'load_table:path')], 'writer/reader')
     sig = dict(ids=idk, md=mdk, reader=via)
     store = new_store()
     gen = 'verif "generator" 1.0'
-    _, e = call(lambda: t.to_hdf5(store, gen, compress=compress, creation_date=DATE))
+    import sx.env as env
+    P = env.module('biom.parse')
+    if wr == 'to_hdf5':
+        _, e = call(lambda: t.to_hdf5(store, gen, compress=compress, creation_date=DATE))
+    else:
+        _, e = call(lambda: P.save_table(t, store, generated_by=gen, compress=compress, creation_date=DATE))
     if e is not None:
         fail('write:raised', f"{type(e).__name__}: {e}"[:160], **sig)
         return
     if via == 'from_hdf5':
         t2, e = call(lambda: b.Table.from_hdf5(store))
-    else:
-        import sx.env as env
-        P = env.module('biom.parse')
+    elif via == 'parse_biom_table':
         t2, e = call(lambda: P.parse_biom_table(store))
+    elif via == 'load_table:handle':
+        t2, e = call(lambda: P.load_table(store))
+    else:
+        import contextlib
+
+        @contextlib.contextmanager
+        def fake_open(fp, permission='r'):
+            yield store
+        P.biom_open = fake_open
+        t2, e = call(lambda: P.load_table('some/table.biom'))
     if e is not None:
         fail('read:raised', f"{type(e).__name__}: {e}"[:160], **sig)
         return
